@@ -40,3 +40,18 @@ check('C04', 'E1+E2', 'model_checking',
       'of what the unbounded asyncio queue does today); retired-sid monitor '
       'capped.',
       'DESIGN.md 6/C04')
+
+check('C05', 'E1', 'model_checking',
+      'explicit-state BFS over event/connection histories with a dispatch/'
+      'ACK ledger',
+      'All histories of connect / DISCONNECT / loss / binary header / '
+      'attachment (separate operations, so other clients interleave between '
+      'frames) for 2-3 transports x 2 namespaces are explored to closure in '
+      '8 configurations (async_handlers x Server/AsyncServer x handler '
+      'layout); at every state every text event of names x ids {None,0,1,7} '
+      'x 14 return shapes is sent from every (transport, namespace) and the '
+      'handler log plus the frames queued on ALL transports are compared '
+      'with the ledger.',
+      'engine.io trusted; background handler tasks joined before comparing; '
+      'argument shapes rotate across the product.',
+      'DESIGN.md 6/C05')
